@@ -1,15 +1,14 @@
 #!/bin/sh
-# tools/mutant_run.sh <patch.diff> <Cxx> [tier]  -- apply a patch to a scratch copy of /repo (outside /repo and /verif),
-# run one check against the copy (VERIF_REPO), delete the copy.  Evidence written by such a run is restored afterwards.
+# tools/mutant_run.sh <patch.diff> <Cxx> [tier]  -- apply a patch to a scratch copy of /repo/kawin (outside /repo and /verif),
+# run one check against the copy (VERIF_REPO); evidence and replays of such a run go to the scratch directory, which is
+# deleted afterwards (replays are kept under /tmp/kawin_mut_replays/<patch>/ for inspection).
 set -u
 PATCH="$(realpath "$1")"; PROP="$2"; TIER="${3:-quick}"
 D="$(mktemp -d /tmp/kawin_mut.XXXXXX)"
-mkdir -p "$D/repo"
-rsync -a --exclude .git --exclude '__pycache__' /repo/kawin "$D/repo/" 
-( cd "$D/repo" && patch -p1 -s < "$PATCH" ) || { echo "PATCH-FAILED"; rm -rf "$D"; exit 3; }
-EV="/verif/evidence/$PROP.json"; [ -f "$EV" ] && cp "$EV" "$D/ev.json"
-VERIF_REPO="$D/repo" /verif/run "$PROP" "$TIER"; RC=$?
-[ -f "$D/ev.json" ] && cp "$D/ev.json" "$EV"
+mkdir -p "$D/repo" "$D/ev"
+rsync -a --exclude .git --exclude '__pycache__' /repo/kawin "$D/repo/"
+( cd "$D/repo" && patch -p1 -s --no-backup-if-mismatch < "$PATCH" ) || { echo "PATCH-FAILED"; rm -rf "$D"; exit 3; }
+VERIF_REPO="$D/repo" VERIF_EVIDENCE_DIR="$D/ev" VERIF_REPLAY_DIR="$D/replays" /verif/run "$PROP" "$TIER"; RC=$?
 rm -rf "$D"
 echo "MUTANT-RESULT patch=$(basename "$(dirname "$PATCH")")/$(basename "$PATCH") check=$PROP tier=$TIER exit=$RC"
 exit $RC
